@@ -188,6 +188,8 @@ func TestSim(t *testing.T) {
 		shrink(t, sc, tier, seed)
 	case "replay":
 		replay(t, sc)
+	case "prefix":
+		prefixReplay(t, sc, tier, seed)
 	default:
 		fmt.Fprintln(os.Stderr, "bad VERIF_MODE")
 		os.Exit(2)
@@ -245,6 +247,29 @@ func search(t *testing.T, sc *Scenario, tier string, seed uint64) {
 		}
 		enc.Encode(out)
 	}
+}
+
+// prefixReplay re-executes runs from..run in this (fresh) process: the fallback
+// for violations that depend on state the code under test keeps across runs
+// (package-level variables), which a single-run tape replay cannot reproduce.
+func prefixReplay(t *testing.T, sc *Scenario, tier string, seed uint64) {
+	from := envInt("VERIF_FROM", 0)
+	run := envInt("VERIF_RUN", 0)
+	sig := os.Getenv("VERIF_SIG")
+	var last *RunOut
+	for i := from; i <= run; i++ {
+		g, s, f := genTapes(seed, sc.Name, i)
+		last, _ = execute(t, sc, tier, g, s, f, false)
+	}
+	if last != nil {
+		if v := hasSig(last, sig); v != nil {
+			ob, _ := json.Marshal(v)
+			fmt.Printf("PREFIX-DETAIL %s\n", ob)
+			fmt.Printf("REPRODUCED sig=%s hash=%s\n", sig, last.Hash)
+			return
+		}
+	}
+	fmt.Printf("NOT-REPRODUCED sig=%s\n", sig)
 }
 
 func hasSig(out *RunOut, sig string) *Violation {
